@@ -639,6 +639,91 @@ def run(chk):
         return True, "", ["%d defaulted extent chains, none narrowed first" % n]
     chk.ob("C13.R6:timestamps-kept", "a default time replaces only an absent extent, never one that exists but is not of the wanted form", timestamps_kept)
 
+    def metric_points_kept():
+        """Metric samples reach the data points with their value and their times: the value extractor hands an integer / a float to the
+        aggregator's like-flavoured push exactly once, and every path of `into_points` that yields points has stored the event's start time and
+        time (the like-named parameters, or times computed from them) into the points."""
+        ev = []
+        n = 0
+        for k, b in P.bodies.items():
+            if b.crate != "emit_otlp" or b.is_closure or "metrics" not in b.file or "Extract<" not in k or b.method not in ("i64", "f64", "u64", "i128", "u128", "f32"):
+                continue
+            n += 1
+            ps = [c for c in b.calls(normal_only=True) if (c.callee.get("name") or "").startswith("push_point_")]
+            fl = "push_point_f64" if b.method.startswith("f") else "push_point_i64"
+            if len(ps) != 1 or b.count_on_paths({ps[0].bb}) != (1, 1) or not common.has_root(b.origin(ps[0].args[1]), "param", 2):
+                return False, ("the metric value extractor's `%s` does not push its value to the aggregator exactly once: the sample is missing from (or doubled in) "
+                               "the exported data points" % b.method), [], b.span
+            if b.method in ("i64", "f64") and ps[0].callee.get("name") != fl:
+                return False, "the extractor's `%s` pushes through %s" % (b.method, ps[0].callee.get("name")), [], ps[0].loc
+            ev.append(ps[0].loc)
+        if n < 2:
+            raise mir.AnchorMissing("numeric methods of the metric value extractor (found %d)" % n)
+        m = 0
+        for k, b in P.bodies.items():
+            if b.crate != "emit_otlp" or b.is_closure or b.method != "into_points" or not (b.trait or "").endswith("DataPointBuilder") or b.trait_default:
+                continue
+            m += 1
+            stores = {}
+            for bb, j, st in b.statements(normal_only=True):
+                if st["k"] == "assign" and st["place"].get("p"):
+                    nm = [p_.get("n") for p_ in st["place"]["p"] if isinstance(p_, dict) and "n" in p_][-1:]
+                    if nm and nm[0] in ("start_time_unix_nano", "time_unix_nano") and st["rv"]["k"] == "use":
+                        stores.setdefault(nm[0], []).append((bb, b.origin(st["rv"]["op"])))
+            aggs = [(bb, st) for bb, j, st in b.statements(normal_only=True) if st["k"] == "assign" and st["rv"]["k"] == "agg" and
+                    [f_ for f_ in (st["rv"].get("fields") or []) if f_ in ("start_time_unix_nano", "time_unix_nano")]]
+            somes = [bb for bb, j, st in b.statements(normal_only=True) if st["k"] == "assign" and st["place"]["l"] == 0 and "p" not in st["place"]
+                     and st["rv"]["k"] == "agg" and st["rv"].get("variant") == "Some"]
+            if not somes:
+                raise mir.AnchorMissing("a Some(points) result in %s" % k)
+            for fld, pidx in (("start_time_unix_nano", 2), ("time_unix_nano", 3)):
+                sites = {bb for bb, o in stores.get(fld, []) if any(r[0] == "param" and r[1] in (2, 3) for r in common.roots(o))} | {bb for bb, st in aggs}
+                # a store inside the loop over the points counts at the loop's header (the points exist, so the body runs)
+                sites = sites | {h for s_, h in b.back_edges() if any(x in b.loop_body(h) for x in sites)}
+                for sb in somes:
+                    if not sites or not b.must_pass(sites, ends={sb}):
+                        return False, ("%s can yield points (Some at bb%d) without having stored the event's %s into them: the data point is exported with "
+                                       "time 0" % (k, sb, fld)), [], b.span
+                direct = [o for bb, o in stores.get(fld, []) if o[0] == "param"]
+                if any(o[1] != pidx for o in direct):
+                    return False, "%s stores parameter `%s` into %s" % (k, b.local_name([o for o in direct if o[1] != pidx][0][1]), fld), [], b.span
+            ev.append(b.span)
+        if m < 2:
+            raise mir.AnchorMissing("into_points impls (found %d)" % m)
+        return True, "", ev
+    def metric_seq_flag():
+        """The metric value extractor takes a flat sequence of numbers (one data point each) and nothing nested: `seq_begin` fails when a sequence is
+        already open and otherwise marks one open on every path; `seq_end` clears the mark.  Without the mark (or the failure) a sequence of
+        sequences is flattened into points instead of the event falling back to logs."""
+        ms = {b.method: b for k, b in P.bodies.items() if b.crate == "emit_otlp" and not b.is_closure and "metrics" in b.file and "Extract<" in k}
+        if "seq_begin" not in ms or "seq_end" not in ms:
+            raise mir.AnchorMissing("seq_begin / seq_end of the metric value extractor")
+        def flag_stores(b):
+            return [(bb, mir.o_const_value(b.origin(st["rv"]["op"]))) for bb, j, st in b.statements(normal_only=True) if st["k"] == "assign" and st["place"].get("p")
+                    and st["rv"]["k"] == "use" and [p_.get("n") for p_ in st["place"]["p"] if isinstance(p_, dict) and "n" in p_][-1:] == ["in_seq"]]
+        b = ms["seq_begin"]
+        st = flag_stores(b)
+        tests = [(bb, t) for bb, t in b.switches() if (mir.o_field_path(mir.norm_bool(b.switch_origin(bb))[0])[1] or [None])[-1] == "in_seq"]
+        errs = [c for c in b.calls(normal_only=True) if (c.callee.get("path") or "").endswith("sval::result::error") or c.callee.get("name") == "error"]
+        if len(tests) != 1 or not errs:
+            return False, "the extractor's seq_begin does not reject a sequence inside a sequence (test of in_seq, then sval::error())", [], b.span
+        bb, t = tests[0]
+        so, pos = mir.norm_bool(b.switch_origin(bb))
+        open_edge = [n for v, n in [(v, n) for v, n in t["targets"]] + [("otherwise", t["otherwise"])] if (str(v) != "0") == pos]
+        if not all(b.must_pass({e.bb for e in errs}, start=n) for n in open_edge):
+            return False, "with a sequence already open, seq_begin can return without failing: nested sequences are flattened into data points", [], b.span
+        closed_edge = [n for v, n in [(v, n) for v, n in t["targets"]] + [("otherwise", t["otherwise"])] if (str(v) != "0") != pos]
+        trues = {x for x, v in st if v is True}
+        if not trues or not all(b.must_pass(trues, start=n) for n in closed_edge):
+            return False, "seq_begin does not mark the sequence as open (in_seq = true) on every accepting path", [], b.span
+        e = ms["seq_end"]
+        falses = {x for x, v in flag_stores(e) if v is False}
+        if not falses or not e.must_pass(falses):
+            return False, "seq_end does not clear in_seq: a second, separate sequence value would be rejected - or, with the mark never set, nothing is", [], e.span
+        return True, "", [b.span, e.span]
+    chk.ob("C13.R8:metric-seq-flag", "the metric value extractor accepts one flat sequence and rejects nesting", metric_seq_flag)
+    chk.ob("C13.R8:metric-points-kept", "a metric sample reaches its data point with its value, start time and time", metric_points_kept)
+
     from . import anystream
     anystream.rules(chk, P, "C13.R7")
     anystream.values_balanced(chk, P)
